@@ -15,8 +15,6 @@ import (
 	"github.com/ipfs/go-log/v2"
 	"github.com/libp2p/go-libp2p-kad-dht/provider/internal/keyspace"
 	mh "github.com/multiformats/go-multihash"
-
-	"github.com/ipfs/go-libdht/kad/key/bit256"
 )
 
 var ErrResetInProgress = errors.New("reset already in progress")
@@ -462,15 +460,14 @@ func (s *ResettableKeystore) altPutChecked(ctx context.Context, keys []mh.Multih
 	if err != nil {
 		return err
 	}
-	seen := make(map[bit256.Key]struct{}, len(keys))
+	seen := make(map[ds.Key]struct{}, len(keys)) // keyed by datastore key: bit256.Key holds a pointer and compares by identity
 	var added int64
 	for _, h := range keys {
-		k := keyspace.MhToBit256(h)
-		if _, ok := seen[k]; ok {
+		dsk := dsKey(keyspace.MhToBit256(h), s.prefixBits)
+		if _, ok := seen[dsk]; ok {
 			continue
 		}
-		seen[k] = struct{}{}
-		dsk := dsKey(k, s.prefixBits)
+		seen[dsk] = struct{}{}
 		ok, err := s.altDs.Has(ctx, dsk)
 		if err != nil {
 			return err
